@@ -194,12 +194,13 @@ Section Props.
 
   Lemma Inv_step p a p' : Inv p -> cstep p a = Some p' -> Inv p'.
   Proof.
-    intros [HC HS] Hst. destruct p as [pin seen cur subs]. unfold CurOK, seen_for in *; simpl in *.
-    destruct a as [e| |i|i| |i|i|i|i|i|cap]; simpl in Hst.
+    intros [HC HS] Hst. destruct p as [pin seen cur subs pcl dwn pall]. unfold CurOK, seen_for in *; simpl in *.
+    destruct a as [e| |i|i| |i|i|i|i|i|cap| |]; simpl in Hst.
     - (* CParent *)
-      injection Hst as <-. split; [exact HC | exact HS].
+      destruct pcl; [discriminate|]. injection Hst as <-. split; [exact HC | exact HS].
     - (* CPick *)
-      destruct cur as [[e0 rem0]|]; [discriminate|]. destruct pin as [|e r]; [discriminate|]. injection Hst as <-.
+      destruct cur as [[e0 rem0]|]; [discriminate|]. destruct pin as [|e r]; [discriminate|].
+      destruct dwn; [discriminate|]. injection Hst as <-.
       unfold Inv, CurOK, seen_for; simpl. split.
       + split; [eexists; reflexivity|]. split; [apply listed_from_NoDup|].
         intros i Hi. apply listed_from_In in Hi. destruct Hi as [c [_ [Hn Hl]]]. rewrite Nat.sub_0_r in Hn. eauto.
@@ -214,7 +215,7 @@ Section Props.
       destruct cur as [[e rem]|]; [|discriminate]. destruct (nth_error subs i) as [c|] eqn:Hi; [|discriminate].
       destruct (existsb (Nat.eqb i) rem) eqn:Hex; [|discriminate].
       destruct HC as [[prev Hprev] [Hnd Hrem]].
-      assert (Hgo : c_hand c = None /\ Some p' = Some (mk {| k_in := pin; k_seen := seen; k_cur := Some (e, rem); k_subs := subs |}
+      assert (Hgo : c_hand c = None /\ Some p' = Some (mk {| k_in := pin; k_seen := seen; k_cur := Some (e, rem); k_subs := subs; k_pclosed := pcl; k_down := dwn; k_all := pall |}
                       (Some (e, remove1 i rem)) (upd i (set_hand (Some e) (c_sent c ++ [e])) subs))).
       { destruct (c_phase c); destruct (c_hand c); try discriminate; split; congruence. }
       destruct Hgo as [Hh Hp]. injection Hp as ->. clear Hst.
@@ -240,7 +241,7 @@ Section Props.
       destruct cur as [[e rem]|]; [|discriminate]. destruct (nth_error subs i) as [c|] eqn:Hi; [|discriminate].
       destruct (existsb (Nat.eqb i) rem) eqn:Hex; [|discriminate].
       destruct HC as [[prev Hprev] [Hnd Hrem]].
-      assert (Hp : Some p' = Some (mk {| k_in := pin; k_seen := seen; k_cur := Some (e, rem); k_subs := subs |}
+      assert (Hp : Some p' = Some (mk {| k_in := pin; k_seen := seen; k_cur := Some (e, rem); k_subs := subs; k_pclosed := pcl; k_down := dwn; k_all := pall |}
                       (Some (e, remove1 i rem)) (upd i set_failed subs))).
       { destruct (c_phase c); try discriminate; congruence. }
       injection Hp as ->. clear Hst.
@@ -301,7 +302,7 @@ Section Props.
         * rewrite nth_error_upd_other in Hn by exact Hne. apply HS, Hn.
     - (* CExit *)
       destruct (nth_error subs i) as [c|] eqn:Hi; [|discriminate].
-      assert (Hp : Some p' = Some (mk {| k_in := pin; k_seen := seen; k_cur := cur; k_subs := subs |} cur (upd i (set_phase (Closed)) subs))).
+      assert (Hp : Some p' = Some (mk {| k_in := pin; k_seen := seen; k_cur := cur; k_subs := subs; k_pclosed := pcl; k_down := dwn; k_all := pall |} cur (upd i (set_phase (Closed)) subs))).
       { destruct (c_phase c); destruct (c_hand c); try discriminate; congruence. }
       injection Hp as ->. clear Hst.
       unfold Inv, CurOK, seen_for, mk; simpl. split.
@@ -321,12 +322,20 @@ Section Props.
       * rewrite (nth_error_upd_same i _ subs c Hi) in Hn. injection Hn as <-. apply SubInv_unlist. eapply HS. exact Hi.
       * rewrite nth_error_upd_other in Hn by exact Hne. eapply HS. exact Hn.
     - (* CSubscribe *)
-      destruct cur as [[e0 rem]|]; [discriminate|]. injection Hst as <-.
+      destruct cur as [[e0 rem]|]; [discriminate|]. destruct dwn; [discriminate|]. injection Hst as <-.
       unfold Inv, CurOK, seen_for, mk; simpl. split; [exact I|].
       intros j cj Hn. destruct (Nat.lt_ge_cases j (length subs)) as [Hlt|Hge].
       + rewrite nth_error_app1 in Hn by exact Hlt. eapply HS. exact Hn.
       + rewrite nth_error_app2 in Hn by exact Hge. destruct (j - length subs) as [|k]; [|destruct k; discriminate].
         simpl in Hn. injection Hn as <-. unfold SubInv, held; simpl. rewrite skipn_all. repeat split; try lia; try constructor.
+    - (* CParentClose *)
+      destruct pcl; [discriminate|]. injection Hst as <-. split; [exact HC | exact HS].
+    - (* CPubDown *)
+      destruct cur as [[e0 rem]|]; [discriminate|]. destruct pin; [|discriminate].
+      destruct (pcl && negb dwn); [|discriminate]. injection Hst as <-.
+      unfold Inv, CurOK, seen_for; simpl. split; [exact I|].
+      intros j cj Hn. rewrite nth_error_map in Hn. destruct (nth_error subs j) as [c|] eqn:Hj; [|discriminate].
+      simpl in Hn. injection Hn as <-. specialize (HS j c Hj). unfold ask_down. destruct (c_phase c); exact HS.
   Qed.
 
   Theorem Inv_reachable : forall l p, crun cinit l = Some p -> Inv p.
@@ -469,6 +478,96 @@ Section Props.
   Proof.
     intros l p e rem Hr Hc. eapply distribution_completes; [eapply Inv_reachable; exact Hr | exact Hc].
   Qed.
+
+  (* ---------------------------------------------------------------- *)
+  (* shutdown (C11): the publisher drains its parent before it stops     *)
+
+  Definition AllInv (p : cpub) : Prop :=
+    k_seen p ++ k_in p = k_all p /\
+    (k_down p = true -> k_pclosed p = true /\ k_in p = [] /\ k_cur p = None).
+
+  Lemma AllInv_step (p : cpub) a p' : AllInv p -> cstep p a = Some p' -> AllInv p'.
+  Proof.
+    intros [H1 H2] Hs. destruct p as [pin seen cur subs pcl dwn pall]. unfold AllInv in *; simpl in *.
+    destruct a as [e| |i|i| |i|i|i|i|i|cap| |]; simpl in Hs.
+    - destruct pcl; [discriminate|]. injection Hs as <-. simpl. split.
+      + rewrite app_assoc, H1. reflexivity.
+      + intros Hd. destruct (H2 Hd) as [Hp _]. discriminate.
+    - destruct cur as [[e0 r0]|]; [discriminate|]. destruct pin as [|e r]; [discriminate|].
+      destruct dwn; [discriminate|]. injection Hs as <-. simpl. split; [rewrite <- app_assoc; exact H1 | discriminate].
+    - destruct cur as [[e rem]|]; [|discriminate]. destruct (nth_error subs i) as [c|]; [|discriminate].
+      destruct (existsb (Nat.eqb i) rem); [|discriminate].
+      destruct (c_phase c); destruct (c_hand c); try discriminate; injection Hs as <-; simpl; (split; [exact H1|]);
+        intros Hd; destruct (H2 Hd) as [_ [_ Hc]]; discriminate.
+    - destruct cur as [[e rem]|]; [|discriminate]. destruct (nth_error subs i) as [c|]; [|discriminate].
+      destruct (existsb (Nat.eqb i) rem); [|discriminate].
+      destruct (c_phase c); try discriminate; injection Hs as <-; simpl; (split; [exact H1|]);
+        intros Hd; destruct (H2 Hd) as [_ [_ Hc]]; discriminate.
+    - destruct cur as [[e [|x r]]|]; try discriminate. injection Hs as <-. simpl. split; [exact H1|].
+      intros Hd. destruct (H2 Hd) as [_ [_ Hc]]. discriminate.
+    - destruct (nth_error subs i) as [c|]; [|discriminate]. destruct (c_hand c); [|discriminate]. injection Hs as <-. simpl. split; assumption.
+    - destruct (nth_error subs i) as [c|]; [|discriminate]. destruct (c_queue c); [discriminate|]. injection Hs as <-. simpl. split; assumption.
+    - destruct (nth_error subs i) as [c|]; [|discriminate]. destruct (c_phase c); try discriminate. injection Hs as <-. simpl. split; assumption.
+    - destruct (nth_error subs i) as [c|]; [|discriminate].
+      destruct (c_phase c); destruct (c_hand c); try discriminate; injection Hs as <-; simpl; split; assumption.
+    - destruct cur; [discriminate|]. destruct (nth_error subs i) as [c|]; [|discriminate].
+      destruct (c_phase c); try discriminate. destruct (c_listed c); [|discriminate]. injection Hs as <-. simpl. split; [exact H1|].
+      intros Hd. destruct (H2 Hd) as [Hp [Hi _]]. repeat split; assumption.
+    - destruct cur; [discriminate|]. destruct dwn; [discriminate|]. injection Hs as <-. simpl. split; [exact H1 | discriminate].
+    - destruct pcl; [discriminate|]. injection Hs as <-. simpl. split; [exact H1|].
+      intros Hd. destruct (H2 Hd) as [Hp _]. discriminate.
+    - destruct cur; [discriminate|]. destruct pin; [|discriminate]. destruct pcl; simpl in Hs; [|discriminate].
+      destruct dwn; simpl in Hs; [discriminate|]. injection Hs as <-. simpl. split; [exact H1 | intros _; repeat split].
+  Qed.
+
+  Theorem AllInv_reachable : forall l (p : cpub), crun cinit l = Some p -> AllInv p.
+  Proof.
+    intros l. assert (H : forall p0, AllInv p0 -> forall p, crun p0 l = Some p -> AllInv p).
+    { induction l as [|a l IH]; intros p0 H0 p Hr; simpl in Hr.
+      - injection Hr as <-. exact H0.
+      - destruct (cstep p0 a) as [p1|] eqn:Hs; [|discriminate]. eapply IH; [|exact Hr]. eapply AllInv_step; eassumption. }
+    apply H. split; [reflexivity | discriminate].
+  Qed.
+
+  (* C11: when the publisher stops, everything its parent ever published has
+     been picked up and distributed — nothing that was buffered in the parent's
+     channel at the moment it closed is lost *)
+  Theorem publisher_drains_before_shutdown : forall l (p : cpub), crun cinit l = Some p ->
+    k_down p = true -> k_seen p = k_all p /\ k_in p = [] /\ k_cur p = None.
+  Proof.
+    intros l p Hr Hd. destruct (AllInv_reachable l p Hr) as [H1 H2]. destruct (H2 Hd) as [_ [Hi Hc]].
+    rewrite Hi, app_nil_r in H1. auto.
+  Qed.
+
+  (* hence a subscription that was in the table, never overflowed and never
+     had a send fail holds everything the parent published since it subscribed,
+     up to the very last event before the shutdown *)
+  Theorem subscriber_holds_everything_at_shutdown : forall l (p : cpub) i c, crun cinit l = Some p ->
+    k_down p = true -> nth_error (k_subs p) i = Some c ->
+    c_drops c = 0 -> c_failed c = 0 -> c_listed c = true ->
+    held c = skipn (c_from c) (k_all p).
+  Proof.
+    intros l p i c Hr Hd Hn H0 Hf Hl.
+    destruct (publisher_drains_before_shutdown l p Hr Hd) as [Hs [_ Hc]].
+    rewrite (lts_subscriber_sees_exact_suffix l p i c Hr Hn H0 Hf Hl). unfold seen_for. rewrite Hc, Hs. reflexivity.
+  Qed.
+
+  (* "its Events() channel is closed after any buffered events": the exit of a
+     subscription's goroutine (which closes outch) leaves what is buffered in
+     place, and a consumer can still receive it *)
+  Theorem exit_keeps_buffer : forall (p : cpub) i p' c, cstep p (CExit i) = Some p' ->
+    nth_error (k_subs p) i = Some c ->
+    exists c', nth_error (k_subs p') i = Some c' /\ c_queue c' = c_queue c /\ c_passed c' = c_passed c /\ c_phase c' = Closed.
+  Proof.
+    intros p i p' c Hs Hn. simpl in Hs. rewrite Hn in Hs.
+    destruct (c_phase c); destruct (c_hand c); try discriminate; injection Hs as <-; simpl.
+    exists (set_phase Closed c). split; [apply nth_error_upd_same, Hn | repeat split].
+  Qed.
+
+  Theorem closed_channel_still_yields : forall (p : cpub) i c e q,
+    nth_error (k_subs p) i = Some c -> c_queue c = e :: q ->
+    exists p', cstep p (CPop i) = Some p'.
+  Proof. intros p i c e q Hn Hq. simpl. rewrite Hn, Hq. eexists. reflexivity. Qed.
 End Props.
 
 (* non-vacuity: two subscriptions, the first never reads and overflows (cap 1),
@@ -478,3 +577,14 @@ Example lts_history :
                         CPop 1; CClose 1; CPick; CSendFail 1; CSend 0; CDone; CPlace 0; CExit 1; CUnsub 1] = Some p /\
             map (fun c => (c_passed c, c_queue c, c_drops c, c_failed c)) (k_subs p) = [([], [7], 1, 0); ([7], [], 0, 1)].
 Proof. eexists. split; [vm_compute; reflexivity | vm_compute; reflexivity]. Qed.
+
+(* non-vacuity of the shutdown theorems: two events are still buffered in the
+   parent's channel when it closes; the publisher distributes both before it
+   stops, the subscription's goroutine exits, and the consumer still receives
+   both from the closed channel *)
+Example lts_shutdown_history :
+  exists p, crun cinit [CSubscribe 4; CParent 7; CParent 8; CParentClose; CPick; CSend 0; CDone; CPlace 0;
+                        CPick; CSend 0; CDone; CPlace 0; CPubDown; CExit 0; CPop 0; CPop 0] = Some p /\
+            k_down p = true /\ k_seen p = [7; 8] /\
+            map (fun c => (c_passed c, c_queue c, c_phase c)) (k_subs p) = [([7; 8], [], Closed)].
+Proof. eexists. split; [vm_compute; reflexivity | vm_compute; repeat split; reflexivity]. Qed.
